@@ -149,8 +149,8 @@ def make_worker(tier):
             fcp_can_c.Generator().register_checks(v)
         return v
 
-    def run_verify(config, decls):
-        tree = build_fcp(decls)
+    def run_verify(config, decls, with_meta=True):
+        tree = build_fcp(decls, with_meta=with_meta)
         try:
             r = verifier(config).verify(tree)
         except Exception as e:  # noqa
@@ -190,6 +190,16 @@ def make_worker(tier):
                     S.violation("C09.missed", "C09.missed/%s/%s" % (config, "+".join(sorted(set(reasons)))), inp, expected="verification fails: %s" % reasons, actual="Ok")
                 elif exp == refverify.UNSPECIFIED:
                     S.count("unspecified")
+                if scope in ("bindings", "types", "enums", "devices", "buses"):
+                    # the same tree built without source positions (nodes that are equal when their contents are)
+                    S.count("executions")
+                    S.count("transitions")
+                    got2, detail2 = run_verify(config, decls, with_meta=False)
+                    simple2 = "ok" if got2 == "ok" else "fail"
+                    if exp == refverify.MUST_PASS and simple2 != "ok":
+                        S.violation("C09.overstrict", "C09.overstrict/%s/%s/%s/no-source-positions" % (config, got2 if got2.startswith("exception") else "rejected", scope), dict(inp, nodes="built without metadata"), expected="verification succeeds", actual={"verdict": got2, "detail": detail2})
+                    elif exp == refverify.MUST_FAIL and simple2 == "ok":
+                        S.violation("C09.missed", "C09.missed/%s/%s/no-source-positions" % (config, "+".join(sorted(set(reasons)))), dict(inp, nodes="built without metadata"), expected="verification fails: %s" % reasons, actual="Ok")
                 ok_perm = [k for k in verdicts if k == "ok"]
                 fail_perm = [k for k in verdicts if k != "ok"]
                 if ok_perm and fail_perm:
